@@ -709,6 +709,7 @@ impl BytecodeVM {
                 return VmStepResult::Continue;
             }
 
+            self.unwind_frame_scopes(interp);
             let guard = interp.heap.create_guard();
             if let JsValue::Object(obj) = &result {
                 guard.guard(obj.cheap_clone());
@@ -728,6 +729,7 @@ impl BytecodeVM {
                     self.restore_from_trampoline_frame(interp, frame, value.value);
                     return VmStepResult::Continue;
                 }
+                self.unwind_frame_scopes(interp);
                 VmStepResult::Terminal(Box::new(VmResult::Complete(value)))
             }
             Ok(OpResult::Suspend {
@@ -1539,6 +1541,17 @@ impl BytecodeVM {
         Ok(())
     }
 
+    /// Leave every block scope the current frame still has open.
+    ///
+    /// `return` (and an uncaught error) can leave a frame while `PushScope` scopes are
+    /// still active; each of them owns one entry of the interpreter's env-guard stack,
+    /// so they are popped here like `PopScope` would have done.
+    fn unwind_frame_scopes(&mut self, interp: &mut Interpreter) {
+        while let Some(saved_env) = self.saved_env_stack.pop() {
+            interp.pop_scope(saved_env);
+        }
+    }
+
     /// Restore VM state from a trampoline frame after a function returns
     fn restore_from_trampoline_frame(
         &mut self,
@@ -1546,6 +1559,9 @@ impl BytecodeVM {
         frame: TrampolineFrame,
         return_value: JsValue,
     ) {
+        // The callee may return from inside block scopes: leave them first
+        self.unwind_frame_scopes(interp);
+
         // Release current registers back to pool before restoring
         let current_registers = mem::take(&mut self.registers);
         self.release_registers(current_registers);
@@ -1773,7 +1789,9 @@ impl BytecodeVM {
             }
         }
 
-        // No handler found - return the error back to caller with stack trace
+        // No handler found - leave the scopes of the outermost frame and
+        // return the error back to caller with stack trace
+        self.unwind_frame_scopes(interp);
         Err(wrapped_error)
     }
 
